@@ -317,3 +317,31 @@ Proof.
     pose proof (resolve_cons_spec (ns_named st) tp tc) as Hs. rewrite Ec in Hs. destruct Hs as [-> Hn'].
     split; [reflexivity|]. exists r, cs, tc. repeat split; auto. intros Hsrc. apply Hn'. apply (Hrule r (nm, tp) Hok tc). exact Hsrc.
 Qed.
+
+(* ---- the numbered rules, rule by rule ------------------------------------------------------------------------------------ *)
+Definition nrule_rel (named : list (ident * N)) (r : rule) (nr : nrule) : Prop :=
+  nr_id nr = r_id r /\ nr_sign nr = r_sign r /\ Forall2 comp_shape (r_name r) (nr_name nr) /\
+  Forall (comp_tag_ok named) (nr_name nr) /\
+  Forall2 (Forall2 (fun tc nc => exists tp, resolve_cons named tp tc = Ok nc)) (r_cons r) (nr_cons nr).
+
+Lemma rmap_forall2_ex {A B} (f : A -> res B) l ys : rmap f l = Ok ys -> Forall2 (fun x y => f x = Ok y) l ys.
+Proof. apply rmap_forall2. Qed.
+
+Theorem gen_pattern_numbers_rel rules nrules st :
+  gen_pattern_numbers rules = Ok (nrules, st) -> Forall2 (nrule_rel (ns_named st)) rules nrules.
+Proof.
+  unfold gen_pattern_numbers.
+  destruct (map_acc number_rule_name {| ns_named := []; ns_next_named := 1; ns_next_temp := 1 |} rules) as [st1 names] eqn:Em.
+  destruct (number_rules_spec _ _ _ _ Em num_inv0) as (_ & _ & _ & Hall).
+  destruct (rmap _ (combine rules names)) as [nrs|e] eqn:Er; cbn [bind]; [|discriminate].
+  intros H; inversion H; subst nrs st1. clear H. apply rmap_forall2 in Er.
+  clear Em. revert nrules Er. induction Hall as [|r x rs xs H0 _ IH]; intros nrules Er; cbn [combine] in Er.
+  - inversion Er. constructor.
+  - inversion Er as [|? nr ? nrs' Hf Hrest]; subst. constructor; [|apply IH; exact Hrest].
+    destruct x as [nm tp]. cbn beta iota in Hf.
+    destruct (rmap (rmap (resolve_cons (ns_named st) tp)) (r_cons r)) as [rc|] eqn:Ec; [|discriminate].
+    cbn [bind] in Hf. inversion Hf; subst nr. clear Hf. destruct H0 as (Hs & Hk & _). cbn [fst] in *.
+    unfold nrule_rel. cbn. repeat split; auto.
+    apply rmap_forall2 in Ec. clear - Ec. induction Ec as [|cs ncs l l' Hc _ IHc]; constructor; [|exact IHc].
+    apply rmap_forall2 in Hc. clear - Hc. induction Hc as [|tc nc l l' H _ IHc]; constructor; [eauto | exact IHc].
+Qed.
